@@ -2648,12 +2648,17 @@ def fixup_pool_strides(op: Operation, arch, nng):
         kernel_w, kernel_h = op.get_kernel_size()
         stride_w, stride_h = op.get_kernel_stride()
         if kernel_w == stride_w == ifm.shape[2] and kernel_h == stride_h == ifm.shape[1]:
+            unit_stride_attrs = {"stride_w": 1, "stride_h": 1, "padding": Padding.VALID}
             if "strides" in op.attrs:
                 stride_n, _, _, stride_c = op.attrs["strides"]
-                op.attrs["strides"] = (stride_n, 1, 1, stride_c)
-            op.attrs["stride_w"] = 1
-            op.attrs["stride_h"] = 1
-            op.attrs["padding"] = Padding.VALID
+                unit_stride_attrs["strides"] = (stride_n, 1, 1, stride_c)
+            # This rewrite runs before the supported operator check. Decide on a copy whether the pooling with unit strides
+            # is supported, and leave an operator that stays on the CPU as it was read
+            unit_stride_op = op.clone("_unit_strides")
+            unit_stride_op.attrs.update(unit_stride_attrs)
+            if not arch.tflite_supported_operators.is_operator_supported(unit_stride_op):
+                return op
+            op.attrs.update(unit_stride_attrs)
 
     return op
 
